@@ -6,6 +6,7 @@ import (
 	"strings"
 	"time"
 	"unsafe"
+	"verif/harness/guard"
 
 	"verif/harness/core"
 	"verif/harness/explore"
@@ -98,7 +99,32 @@ var badKinds = []struct {
 	{"struct with a nil func field", func() interface{} { return BadFuncField{A: 1, End: 2} }, false},
 }
 
-var badPositions = []string{"element 4095 of 5000", "element 4096 of 5000", "element 8191 of 9000", "element 1023 of 1100", "element 65535 of 70000", "element 65536 of 70000", "last element of 70000", "in a self-containing list inside a list", "in a self-containing map inside a list", "top", "field", "list[first]", "list[middle]", "list[last]", "map value", "map key", "nested.field", "nested.nested.field",
+// secondOf returns another hashable value of the same kind as bad.
+func secondOf(bad interface{}) interface{} {
+	switch x := bad.(type) {
+	case chan int:
+		return make(chan int)
+	case complex64:
+		return x + 1
+	case complex128:
+		return x + 1
+	case unsafe.Pointer:
+		return unsafe.Pointer(&theChan)
+	case *BadFuncField:
+		return &BadFuncField{A: 2, F: theFunc}
+	case BadComplexField:
+		return BadComplexField{A: 9, Z: 2i}
+	case *BadNestedStruct:
+		return &BadNestedStruct{A: 9, P: &BadChanField{C: theChan}}
+	case *BadChanField:
+		return &BadChanField{A: 9}
+	case *BadTimeEmbedded:
+		return &BadTimeEmbedded{C: theChan, End: 9}
+	}
+	return bad
+}
+
+var badPositions = []string{"two map keys of the same bad kind", "element 4095 of 5000", "element 4096 of 5000", "element 8191 of 9000", "element 1023 of 1100", "element 65535 of 70000", "element 65536 of 70000", "last element of 70000", "in a self-containing list inside a list", "in a self-containing map inside a list", "top", "field", "list[first]", "list[middle]", "list[last]", "map value", "map key", "nested.field", "nested.nested.field",
 	"list in list", "map in list", "list in map", "top-level list element", "top-level map value", "nested.list[last]"}
 
 // place builds a value with bad at the given position; ctxChoices fill the surroundings.
@@ -172,6 +198,8 @@ func placeBad(pos string, bad interface{}, ch *explore.Chooser) interface{} {
 		h.M = mkMap()
 	case "map key":
 		h.MK = map[interface{}]string{bad: "v"}
+	case "two map keys of the same bad kind":
+		h.MK = map[interface{}]string{bad: "v", secondOf(bad): "w"}
 	case "nested.field":
 		h.In = &BadHolder{A: 2, X: bad, End: 8}
 	case "nested.nested.field":
@@ -221,7 +249,7 @@ func init() {
 				us = append(us, core.Unit{Name: "pos:" + pos, Cost: 5, Run: func(c *core.Ctx) {
 					for ki := range badKinds {
 						bk := badKinds[ki]
-						if pos == "map key" && !bk.hashable {
+						if (pos == "map key" || pos == "two map keys of the same bad kind") && !bk.hashable {
 							continue
 						}
 						ex := &explore.Explorer{Bound: bound}
@@ -259,6 +287,29 @@ func init() {
 									c.Report(&core.Violation{Stage: "encode", Kind: "success-reported", Shape: shape, Message: "encode succeeded for a value containing an unrepresentable part", Case: desc, Detail: det + " | " + hexs(enc.Bytes), Choices: ch.Choices()})
 								default:
 									c.Outcome("error")
+								}
+								// the streaming entry points into a plain io.Writer (no bytes.Buffer, no io.ByteWriter)
+								for ei, ename := range []string{"Encoder.WriteTo", "Encoder.WriteObject", "Serializer.WriteTo"} {
+									var werr error
+									gw := guard.NewWriter()
+									p := core.Catch(func() {
+										switch ei {
+										case 0:
+											werr = hessian.NewEncoder(nil, copyNameMap(nm)).WriteTo(gw, val)
+										case 1:
+											werr = hessian.NewEncoder(gw, copyNameMap(nm)).WriteObject(val)
+										default:
+											werr = hessian.NewSerializer(nil, copyNameMap(nm)).WriteTo(gw, val)
+										}
+									})
+									switch {
+									case p != "":
+										c.Report(&core.Violation{Stage: "encode", Kind: "panic", Shape: shape + " " + ename, Message: msgClass(p), Case: desc + " (" + ename + " into a plain io.Writer)", Choices: ch.Choices()})
+									case werr == nil && !(strings.Contains(bk.name, " nil ") && decodesBack(val, gw.Buf)):
+										c.Report(&core.Violation{Stage: "encode", Kind: "success-reported", Shape: shape + " " + ename, Message: ename + " into a plain io.Writer succeeded for a value containing an unrepresentable part", Case: desc, Detail: hexs(gw.Buf), Choices: ch.Choices()})
+									default:
+										c.Outcome("error-streaming")
+									}
 								}
 								// the same value three times through one Encoder and one Serializer: every call has to fail
 								// (whatever an earlier refused call left behind)
